@@ -93,3 +93,14 @@ Theorem C10_linecol_plain_line : forall pre line_text rest,
   ((2 + count_nl pre)%nat, (1 + List.length line_text)%nat).
 Proof. exact linecol_plain_line. Qed.
 Print Assumptions C10_linecol_plain_line.
+
+(** ** compile errors (Proofs/CompilePos.v) *)
+From PQL Require Import Model.Compile Proofs.CompilePos.
+
+(** every position Compile attaches to an error - wrong number of arguments, $left/$right outside a
+    join condition, a let value that is not closed, an unknown join kind, a second query - is an
+    offset of the source: it is the start of a span recorded in the tree, and for a parsed program
+    those spans are token extents inside the source.  For every source and every parameter list. *)
+Theorem C10_compile_error_positions : forall params s p, compile params s = CErr (Some p) -> (p <= List.length s)%nat.
+Proof. exact compile_error_positions. Qed.
+Print Assumptions C10_compile_error_positions.
